@@ -330,6 +330,12 @@ def r_memo_key(ck: Checker) -> None:
             plain_key = isinstance(key, ast.Name) or (isinstance(key, ast.Tuple) and all(isinstance(e, ast.Name) for e in key.elts))
             used = set().union(*[(_names(s) if plain_key else outside_key(s)) for s in skipped]) if skipped else set()
             covered = (_names(key) if plain_key else set()) | _names(store)
+            if isinstance(key, ast.Name):
+                # `k = (a, b)` bound once: the components can be read back from the key
+                kdefs = [s for s in ast.walk(func.node) if isinstance(s, (ast.Assign, ast.AnnAssign)) and s.value is not None
+                         and any(isinstance(t, ast.Name) and t.id == key.id for t in (s.targets if isinstance(s, ast.Assign) else [s.target]))]
+                if len(kdefs) == 1 and (isinstance(kdefs[0].value, ast.Name) or (isinstance(kdefs[0].value, ast.Tuple) and all(isinstance(e, ast.Name) for e in kdefs[0].value.elts))):
+                    covered |= _names(kdefs[0].value)
             # what varies between two executions of the guard
             varying: set[str] = set()
             if loop is not None and isinstance(loop, ast.For):
